@@ -185,6 +185,11 @@ def diagnostics_receive_chains(c, geomkind='Continuous1D', n=3, N=4):
         c.holds('ess_one_entry_per_variable_in_order', list(d.keys()) == names, note=f"{list(d.keys())} vs {names}")
         for i, nm in enumerate(names):
             c.eq(f'ess_variable[{i}]_receives_row_{i}_unpermuted', d[nm], A[i, :])
+        # the optional selection of variables: exactly those variables, each with its own row
+        for sel in ([n - 1, 0], [1]):
+            dd = s.to_arviz_inferencedata(sel)
+            c.holds(f'selection{sel}_has_exactly_the_selected_variables_in_the_order_given', list(dd.keys()) == [names[i] for i in sel], note=str(list(dd.keys())))
+            for i in sel: c.eq(f'selection{sel}_variable[{i}]_is_row_{i}', dd[names[i]], A[i, :])
         s.compute_rhat(s2)
         d = az.calls[-1][1]
         for i, nm in enumerate(names):
